@@ -26,7 +26,7 @@ use crate::{
         state::{QueryState, RunningQuery},
     },
     verif::{
-        bfs::bfs,
+        bfs::bfs_all,
         common::{self, Report},
     },
 };
@@ -78,6 +78,10 @@ pub enum Ev {
     Complete(bool),
     PollComplete,
     Kill,
+    /// the task of a query that was killed while a completion request for it was parked ends
+    ZombieTask(bool),
+    /// the completion request parked before the kill is polled again
+    PollZombie,
 }
 
 const STATUSES: [QueryStatus; 5] = [
@@ -106,11 +110,16 @@ pub struct M {
     has_sender: bool,
     new_pending: bool,
     complete_pending: bool,
+    /// a completion request is still parked for a query that has since been killed
+    zombie: bool,
+    /// what the killed query's task has sent (None: still running)
+    zsent: Option<bool>,
+    zsender: bool,
 }
 
 impl M {
     fn new() -> Self {
-        Self { st: St::Absent, real: false, sent: None, has_sender: false, new_pending: false, complete_pending: false }
+        Self { st: St::Absent, real: false, sent: None, has_sender: false, new_pending: false, complete_pending: false, zombie: false, zsent: None, zsender: false }
     }
     fn status(&self) -> Option<QueryStatus> {
         Some(match self.st {
@@ -129,6 +138,9 @@ impl M {
                 self.st = St::Completed(ok);
             }
         }
+    }
+    fn real_zombie_pending(&self) -> bool {
+        self.zsent.is_none()
     }
     fn rank(s: QueryStatus) -> usize {
         STATUSES.iter().position(|x| *x == s).unwrap()
@@ -163,8 +175,15 @@ impl M {
         if self.complete_pending {
             v.push(Ev::PollComplete);
         }
-        if !self.new_pending {
+        // one parked completion per slot in the harness: no second kill-with-parked-completion while a zombie exists
+        if !self.new_pending && !(self.zombie && self.complete_pending) {
             v.push(Ev::Kill);
+        }
+        if self.zombie {
+            v.push(Ev::PollZombie);
+            if self.zsender && self.zsent.is_none() {
+                v.extend([Ev::ZombieTask(true), Ev::ZombieTask(false)]);
+            }
         }
         v
     }
@@ -306,14 +325,34 @@ impl M {
                 }
                 _ => "Pending".into(),
             },
+            Ev::ZombieTask(ok) => {
+                self.zsent = Some(ok);
+                self.zsender = false;
+                "-".into()
+            }
+            Ev::PollZombie => {
+                // Whatever the abandoned request is answered with, it concerns a query that no longer
+                // exists: the query slot (possibly holding a new query by now) must not change.
+                if !self.real_zombie_pending() {
+                    self.zombie = false;
+                    "Any".into()
+                } else {
+                    "Pending".into()
+                }
+            }
             Ev::Kill => {
                 if self.st == St::Absent {
                     "Err:NoSuchQuery".into()
                 } else {
+                    if self.complete_pending {
+                        // the parked completion request outlives the kill; its query is gone
+                        self.zombie = true;
+                        self.zsent = self.sent;
+                        self.zsender = self.has_sender && self.sent.is_none();
+                    }
                     self.st = St::Absent;
                     self.has_sender = false;
                     self.sent = None;
-                    // scope restriction: a parked completion request is abandoned together with the kill
                     self.complete_pending = false;
                     "Ok".into()
                 }
@@ -337,7 +376,9 @@ struct Sys {
     new_fut: Option<BoxFut<Result<PrepareQuery, NewQueryError>>>,
     extra_new_fut: Option<BoxFut<Result<PrepareQuery, NewQueryError>>>,
     complete_fut: Option<BoxFut<Result<Box<dyn ProtocolResult>, QueryCompletionError>>>,
+    zombie_fut: Option<BoxFut<Result<Box<dyn ProtocolResult>, QueryCompletionError>>>,
     sender: Option<oneshot::Sender<QueryResult>>,
+    zsender: Option<oneshot::Sender<QueryResult>>,
     processor: Box<Processor>,
     mpc: InMemoryTransport<HelperIdentity>,
     shard: InMemoryTransport<crate::sharding::ShardIndex>,
@@ -423,7 +464,9 @@ impl Sys {
             new_fut: None,
             extra_new_fut: None,
             complete_fut: None,
+            zombie_fut: None,
             sender: None,
+            zsender: None,
             processor: Box::new(Processor::default()),
             mpc,
             shard,
@@ -565,10 +608,29 @@ impl Sys {
                     Err(QueryKillStatus::NoSuchQuery(_)) => "Err:NoSuchQuery".to_string(),
                 };
                 if r == "Ok" {
+                    if let Some(f) = self.complete_fut.take() {
+                        // the request parked before the kill stays parked, and the task it waits for keeps running
+                        self.zombie_fut = Some(f);
+                        self.zsender = self.sender.take();
+                    }
                     self.sender = None;
-                    self.complete_fut = None;
                 }
                 r
+            }
+            Ev::ZombieTask(ok) => {
+                let tx = self.zsender.take().expect("model enables ZombieTask only while the killed query's task runs");
+                let _ = if ok { tx.send(Ok(Box::new(Vec::<BA64>::new()))) } else { tx.send(Err(ProtocolError::Internal)) };
+                "-".into()
+            }
+            Ev::PollZombie => {
+                let mut fut = self.zombie_fut.take().expect("model enables PollZombie only with an abandoned request");
+                match settle(&mut fut).await {
+                    None => {
+                        self.zombie_fut = Some(fut);
+                        "Pending".into()
+                    }
+                    Some(_) => "Any".into(),
+                }
             }
         }
     }
@@ -631,6 +693,9 @@ pub fn run_hist(view: View, hist: &[Ev]) -> Result<(M, Vec<Ev>), String> {
             // stored status: equal to the model's up to the lazy Running -> Completed promotion
             let raw = sys.raw_status();
             let coarse = |s: Option<QueryStatus>| s.map(|s| if s == QueryStatus::Completed { QueryStatus::Running } else { s });
+            if coarse(raw) != coarse(m.status()) && matches!(ev, Ev::PollZombie) {
+                return Err(format!("zombie completion: step {} {ev:?}: a completion request that was parked before its query was killed has now finished and the helper stores status {raw:?}; the query registered since then was in {:?} and must not be touched", i + 1, m.status()));
+            }
             if coarse(raw) != coarse(m.status()) {
                 return Err(format!("step {} {ev:?} (answer {got}): the helper now stores status {raw:?}, the lifecycle model says {:?}", i + 1, m.status()));
             }
@@ -648,7 +713,7 @@ fn ev_json(h: &[Ev]) -> Vec<String> {
 
 fn parse_ev(s: &str) -> Ev {
     let all = {
-        let mut v = vec![Ev::NewStart, Ev::PrepShard, Ev::ReceiveInputs, Ev::Inject, Ev::TaskOk, Ev::TaskErr, Ev::PollComplete, Ev::Kill, Ev::Status(None)];
+        let mut v = vec![Ev::NewStart, Ev::PrepShard, Ev::ReceiveInputs, Ev::Inject, Ev::TaskOk, Ev::TaskErr, Ev::PollComplete, Ev::Kill, Ev::Status(None), Ev::PollZombie, Ev::ZombieTask(true), Ev::ZombieTask(false)];
         for b in [true, false] {
             v.extend([Ev::PrepHelper(b), Ev::Complete(b)]);
         }
@@ -706,7 +771,7 @@ fn run() {
     r.flag("exhaustive", true);
     let results = common::par_map(views.len(), 3, |i| {
         let view = views[i];
-        bfs(|h| common::catch(|| run_hist(view, h)).unwrap_or_else(|p| Err(format!("panic: {p}"))), depth, 2_000_000)
+        bfs_all(|h| common::catch(|| run_hist(view, h)).unwrap_or_else(|p| Err(format!("panic: {p}"))), depth, 2_000_000, 40)
     });
     for (i, st) in results.into_iter().enumerate() {
         let view = views[i];
@@ -719,8 +784,9 @@ fn run() {
             r.note(format!("{view:?}: depth bound {depth} reached with enabled events left (expected: the model has cycles; all distinct model states within the bound were expanded)"));
         }
         r.sample(json!({"view":format!("{view:?}"),"states":st.states,"transitions":st.transitions,"deepest_history":ev_json(&st.deepest)}));
-        if let Some((h, e)) = st.failure {
-            let kind = if e.contains("panic") { "panic" } else if e.contains("stores status") { "state" } else { "answer" };
+        r.add("failing_transitions", st.failing_transitions);
+        for (h, e) in st.failures {
+            let kind = if e.contains("panic") { "panic" } else if e.starts_with("zombie completion") { "zombie-completion" } else if e.contains("stores status") { "state" } else { "answer" };
             let last = h.last().map(|e| format!("{e:?}")).unwrap_or_default();
             r.violation(&format!("lifecycle:{kind}:{view:?}:{last}"), &e, json!({"part":"lifecycle","view":format!("{view:?}"),"history":ev_json(&h)}));
         }
